@@ -214,6 +214,9 @@ func (w *World) observeLookups(n *Node, st *State, seed uint64) (out []obs) {
 			return
 		}
 		want, exists := L.HashAt(pos, L.R)
+		if !exists {
+			want, exists = w.altNumbering(n, st, pos)
+		}
 		switch {
 		case full && exists && got != want:
 			add("gethash-wrong", "GetHash(%d) differs from the node there (N=%d)", pos, st.N)
@@ -240,6 +243,9 @@ func (w *World) observeLookups(n *Node, st *State, seed uint64) (out []obs) {
 			add("gethash-panic", "GetHash(%d): %v", pos, err)
 			return
 		}
+		if alt, ok := w.altNumbering(n, st, pos); ok && (got == alt || (!full && got == zeroH)) {
+			continue
+		}
 		if got != zeroH {
 			add("gethash-outside", "GetHash(%d) returned %s for a position far outside the forest (N=%d)", pos, short(got), st.N)
 			return
@@ -258,6 +264,26 @@ func (w *World) observeLookups(n *Node, st *State, seed uint64) (out []obs) {
 		}
 	}
 	return
+}
+
+// altNumbering: a map forest also answers for positions given in the numbering
+// of its allocated height (GetTreeRows) — the library's own tests and String()
+// read it that way.  Existing nodes never collide between the two numberings
+// (minimal-numbering positions are < 2^(rows+1), allocated-numbering positions
+// above row 0 are >= 2^TotalRows >= 2^(rows+1)).
+func (w *World) altNumbering(n *Node, st *State, pos uint64) (H, bool) {
+	if !n.isMap() {
+		return H{}, false
+	}
+	L := st.Layout()
+	T := n.mp.TotalRows
+	if T == L.R || T > 63 {
+		return H{}, false
+	}
+	if ro, ok := roOfPos(pos, L.R); ok && w.inForestRO(ro, st.N) {
+		return H{}, false
+	}
+	return L.HashAt(pos, T)
 }
 
 // inForestRO: does place ro lie inside some tree of a forest with n leaves?
@@ -514,7 +540,7 @@ func (w *World) lightUpdate(n *Node, b *Block, nb *nodeBlk) {
 	}
 	ud := nb.ud
 	chIn := n.ch
-	g := w.fp.begin("Proof.Update", chIn, b.Adds, b.Proof.Targets, nb.rem, ud.ToDestroy, ud.NewDelHash, ud.NewDelPos, ud.NewAddHash, ud.NewAddPos)
+	g := w.fp.begin("Proof.Update", chIn, b.Adds, b.Proof.Targets, nb.rem, ud.ToDestroy, ud.NewDelHash, ud.NewDelPos, ud.NewAddHash, ud.NewAddPos, n.cp.Targets, n.cp.Proof)
 	var out []H
 	err, _ := guard(func() error {
 		var e error
@@ -529,6 +555,7 @@ func (w *World) lightUpdate(n *Node, b *Block, nb *nodeBlk) {
 	}
 	n.ch = out
 	w.fp.track("cached-hashes", out)
+	w.fp.track("cached-proof", n.cp.Targets, n.cp.Proof)
 	for _, d := range b.Dels {
 		delete(n.held, d)
 	}
@@ -652,7 +679,7 @@ func (w *World) lightUndo(n *Node, b *Block) {
 	ud := nb.ud
 	chIn := n.ch
 	numLeaves := b.Post.N
-	g := w.fp.begin("Proof.Undo", chIn, b.Proof.Targets, b.Dels, ud.ToDestroy, b.Proof.Proof)
+	g := w.fp.begin("Proof.Undo", chIn, b.Proof.Targets, b.Dels, ud.ToDestroy, b.Proof.Proof, n.cp.Targets, n.cp.Proof)
 	var out []H
 	err, _ := guard(func() error {
 		var e error
@@ -671,6 +698,7 @@ func (w *World) lightUndo(n *Node, b *Block) {
 	}
 	n.ch = out
 	w.fp.track("cached-hashes", out)
+	w.fp.track("cached-proof", n.cp.Targets, n.cp.Proof)
 	if len(ud.ToDestroy) > 0 {
 		w.stats.Reach["light_undo_with_destroyed_roots"]++
 	}
